@@ -1,0 +1,8 @@
+//go:build !verif
+
+package multiproof
+
+// Verification hooks are compiled out: verifOn is a false constant, so guarded calls vanish.
+const verifOn = false
+
+func verifGate(start, end int) {}
